@@ -27,6 +27,21 @@ SITE_KIND = {
     "clt_pong": "pongAll", "clt_pop": "L", "clt_call": "cb", "sel_select": "select", "sel_pong": "pongAll",
     "sel_empty": "Queue.empty", "sel_get": "Queue.get",
 }
+# operation on a shared object (by ROLE) -> the model actions it can be; the driver takes the one the model has next for that thread
+SITE_CLASS = {
+    "Lock.acquire@cl": ["cl_lock"], "Lock.release@cl": ["cl_unlock"],
+    "Lock.acquire@sync.in": ["se_acqIn"], "Lock.release@sync.in": ["sy_relIn"],
+    "Lock.acquire@sync.out": ["sy_acqOut"], "Lock.release@sync.out": ["sx_relOut"],
+    "Event.set@hub.event": ["bi_set"], "Event.wait@hub.event": ["idle_wait"], "Event.clear@hub.event": ["idle_clear"],
+    "ping@clt": ["clt_ping"], "ping@hub": ["cy_ping"], "pongAll@clt": ["clt_pong"], "pongAll@hub": ["sel_pong"],
+    "Queue.put@hub.incoming": ["rs_put"], "Queue.empty@hub.incoming": ["sel_empty"], "Queue.get@hub.incoming": ["sel_get"],
+    "select@?": ["sel_select"],
+    "deque.contains@ready": ["fs_assert", "st_contains", "sch_contains"], "deque.append@ready": ["fs_append", "cyc_append"],
+    "deque.appendleft@ready": ["fs_appendleft"], "deque.popleft@ready": ["cyc_pop"], "deque.len@ready": ["run_len"],
+    "deque.append@calls": ["clt_append"], "deque.popleft@calls": ["clt_pop"],
+    "new@clt": ["cl_create"], "new@st": ["sch_spawn"], "new@sync": ["se_create"],
+}
+SILENT = ["cl_isNone"]       # reads `_callLaterTask` under the scheduler's lock (every write is under that lock): no event of its own
 REPAIRED = {"if self._locked is None or self._locked is False:": "if not self._locked:"}      # = HandoffSites.repaired
 FALSY_KEY = "lock:falsy-task:lock granted while another holder has not released"
 HUBRACE_KEY = "hubrace:a task parked in the threaded hub is queued twice (hub thread's _return vs schedule())"
@@ -48,7 +63,7 @@ class C07(Check):
     prop_module = "PoxModel.Properties.C07"
     lean_targets = ["drv_c07"]
     driver = "drv_c07"
-    theorems = ["Pox.C07.sites_agree", "Pox.C07.sites_anchored", "Pox.C07.calllater_once", "Pox.C07.calllater_order",
+    theorems = ["Pox.C07.ops_agree", "Pox.C07.ops_cover", "Pox.C07.sites_anchored", "Pox.C07.calllater_once", "Pox.C07.calllater_order",
                 "Pox.C07.sync_excludes", "Pox.C07.sync_mutual", "Pox.C07.schedule_atmost1_partial", "Pox.C07.schedule_self_twice", "Pox.C07.schedule_hub_race_defect", "Pox.C07.schedule_wake_kept",
                 "Pox.C07.schedule_st_never_lost", "Pox.C07.schedule_direct_kept", "Pox.C07.wake_never_lost", "Pox.C07.no_crash",
                 "Pox.C07.clt_alive", "Pox.C07.incoming_noticed_strict",
@@ -178,7 +193,7 @@ class C07(Check):
         if common.Findings().match(self.id, HUBRACE_KEY):
             # the reproduction of schedule_hub_race_defect on the real classes; exercised (and reported as KNOWN-FINDING) once the
             # finding is listed in known_findings.json — until then it is available through `--replay corpus/C07/hubrace.json`
-            cases.append({"kind": "hubrace", "seed": 0})
+            cases.append({"kind": "hubrace", "seed": 13})
         cases += self.lock_corpus()
         cases += [{"kind": "pinger", "ops": ops} for ops in ([0, 1], [0, 0, 0, 1, 0, 1], [0] * 5 + [1, 0, 1, 0, 0, 1])]
         cases += [{"kind": "pinger", "ops": [0] * n + [1, 0, 1]} for n in (1, 2, 1023, 1024, 1025, 2048, 2049)]     # around the read size
@@ -378,17 +393,50 @@ class C07(Check):
         trace_funcs, yield_lines = self.trace_funcs, self.min_yield_lines()
         if cover is not None:                                 # coverage wants every line of the anchored files
             trace_funcs = _AllOf({self.rfile, self.pcore.__file__, self.util.__file__})
-        ctl = ft.Controller(chooser, trace_funcs=trace_funcs, yield_lines=yield_lines, max_steps=case.get("budget", MAX_STEPS),
+        # pre-emption points and events are the operations on the SHARED OBJECTS (ready queue, call queue, locks, event, pipes,
+        # the hub's queue; creation of the helper tasks), identified by the object's role — not by function name or line: moving a
+        # statement into a helper or renaming a local changes neither the events nor their order.  Lines are traced for coverage only.
+        ctl = ft.Controller(chooser, trace_funcs=trace_funcs, yield_lines=(), max_steps=case.get("budget", MAX_STEPS),
                             frame_files=(self.rfile,), cover=cover)
+        ctl.roles, keep, creating = {}, [], []
+        def role(obj, r): ctl.roles[id(obj)] = r; keep.append(obj)
+        ctl.pipe_role = lambda: (creating[-1] if creating else "hub")
         def namer(th):
             n = getattr(th._target, "__name__", "")
             return "H" if n == "_threadProc" else "S" if n == "run" else None
         prim = ft.make_primitives(ctl, namer)
         saved = (recoco.threading, recoco.Thread, recoco.Queue, recoco.select, util.makePinger, recoco.defaultScheduler)
+        saved_cls = (recoco.deque, recoco.CallLaterTask, recoco.ScheduleTask, recoco.SyncTask)
         saved_os = util.os
         sys_trace_saved = sys.gettrace()
         sys.settrace(None)
         recoco.threading, recoco.Thread, recoco.Queue, recoco.select = prim.threading, prim.Thread, prim.Queue, prim.select_module
+        recoco.deque = prim.Deque
+        def built(kind, cls):
+            """subclass of a helper-task class: its creation is an event ("new"); what its constructor does happens before any
+            other thread can see the object (no events); the shared objects it made get their roles"""
+            class Built(cls):
+                def __init__(self, *a, **k):
+                    ctl.yield_point(("R", "new", kind, "", 0))
+                    me = ctl.me()
+                    if me is not None: me.quiet += 1
+                    creating.append(kind)
+                    try:
+                        cls.__init__(self, *a, **k)
+                    finally:
+                        creating.pop()
+                        if me is not None: me.quiet -= 1
+                    if kind == "clt":
+                        for name, v in list(vars(self).items()):
+                            if isinstance(v, collections.deque):
+                                if not isinstance(v, prim.Deque): v = prim.Deque(v); setattr(self, name, v)
+                                role(v, "calls")
+                    if kind == "sync":
+                        role(self.inlock, "sync.in"); role(self.outlock, "sync.out")
+            Built.__name__, Built.__qualname__ = cls.__name__, cls.__qualname__
+            return Built
+        recoco.CallLaterTask, recoco.ScheduleTask, recoco.SyncTask = (built("clt", recoco.CallLaterTask), built("st", recoco.ScheduleTask),
+                                                                      built("sync", recoco.SyncTask))
         # the REAL pinger class (pox.lib.util.make_pinger -> PipePinger) on a virtual pipe: util's `os` is replaced
         vos = prim.VirtualOS()
         util.os = vos
@@ -402,6 +450,27 @@ class C07(Check):
         try:
             sched = recoco.Scheduler(isDefaultScheduler=True, startInThread=True, daemon=True,
                                      threaded_selecthub=bool(case["threaded"]))
+            # roles of the scheduler's shared objects, found by TYPE among its attributes (not by attribute name)
+            def attrs(o, typ): return [(n, v) for n, v in sorted(vars(o).items()) if isinstance(v, typ)]
+            dq = attrs(sched, collections.deque)
+            if len(dq) != 1: raise HarnessError("the scheduler has %d deque attributes, expected the ready queue only" % len(dq))
+            if not isinstance(dq[0][1], prim.Deque): setattr(sched, dq[0][0], prim.Deque(dq[0][1]))
+            ready_q = getattr(sched, dq[0][0]); role(ready_q, "ready")
+            lk = attrs(sched, prim.Lock)
+            if len(lk) != 1: raise HarnessError("the scheduler has %d lock attributes, expected one" % len(lk))
+            role(lk[0][1], "cl")
+            hubs = attrs(sched, recoco.SelectHub)
+            if len(hubs) != 1: raise HarnessError("the scheduler has %d select hubs" % len(hubs))
+            hub = hubs[0][1]
+            for n, v in attrs(hub, prim.Event): role(v, "hub.event")
+            for n, v in attrs(hub, prim.Queue): role(v, "hub.incoming")
+            incoming = [v for n, v in attrs(hub, prim.Queue)]
+            def calls_q():
+                c = sched._callLaterTask
+                if c is None: return None
+                d = attrs(c, prim.Deque)
+                if len(d) != 1: raise HarnessError("the CallLaterTask has %d deque attributes" % len(d))
+                return d[0][1]
             st.sched = sched
             nf = len(case["progs"])
             insec = set()
@@ -549,10 +618,10 @@ class C07(Check):
             fthreads = [ctl.spawn("F%d" % i, functools.partial(foreign, i, p)) for i, p in enumerate(case["progs"])]
 
             def pending():
-                clt = sched._callLaterTask
-                return bool(len(sched._ready) or (clt is not None and len(clt._calls)) or sched._selectHub._incoming.qsize())
+                cq = calls_q()
+                return bool(ready_q.size() or (cq is not None and cq.size()) or any(q.qsize() for q in incoming))
             def on_step(c):
-                r = list(sched._ready)
+                r = ready_q.peek()
                 if len(set(map(id, r))) != len(r): st.dup_ready = True
             ctl.on_step = on_step
             choice_info = []
@@ -596,7 +665,7 @@ class C07(Check):
             clt = sched._callLaterTask
             def pending_calls(clt):
                 out, nth = [], {}
-                for f, a, k in (list(clt._calls) if clt is not None else []):
+                for f, a, k in (calls_q().peek() if clt is not None else []):
                     if len(a) >= 2: out.append([a[0], a[1]])
                     elif k: out.append([k.get("by"), k.get("seq")])
                     else:
@@ -610,7 +679,7 @@ class C07(Check):
                 "raw": [[tid_of(n)] + list(k) + [1 if to else 0] for n, k, to in ctl.trace],
                 "executed": st.executed, "submitted": st.submitted,
                 "pending": pending_calls(clt),
-                "ready": [desc(t) for t in sched._ready],
+                "ready": [desc(t) for t in ready_q.peek()],
                 "slices": st.slices, "wake_marks": st.wake_marks,
                 "dup_ready": st.dup_ready, "insec_violations": st.insec_violations, "wrong_thread": st.wrong_thread,
                 "timeouts": st.timeouts, "bad_args": st.bad_args,
@@ -627,6 +696,7 @@ class C07(Check):
             if getattr(self, "_redir", None) is not None:
                 self._redir.close(); self._redir = None
             (recoco.threading, recoco.Thread, recoco.Queue, recoco.select, util.makePinger, recoco.defaultScheduler) = saved
+            (recoco.deque, recoco.CallLaterTask, recoco.ScheduleTask, recoco.SyncTask) = saved_cls
             util.os = saved_os
             sys.settrace(sys_trace_saved)
         if leaked:
@@ -657,7 +727,7 @@ class C07(Check):
         """is a thread parked at `key` about to perform something the model knows as an action?"""
         if key[0] in ("user", "cb", "begin"): return True
         if key[0] == "L": return True
-        return key[0] == "P"
+        return key[0] in ("P", "R")
 
     # ------------------------------------------------------------------ raw trace -> (tid, site, timeout)
     def map_trace(self, raw):
@@ -672,6 +742,10 @@ class C07(Check):
             elif kind == "L":
                 ent = tab.get((ev[2], ev[3]))
                 if ent and "L" in ent["acts"]: out.append([tid, ent["acts"]["L"], to])
+            elif kind == "R":
+                cls = "%s@%s" % (ev[2], ev[3])
+                sites = SITE_CLASS.get(cls)
+                out.append([tid, "|".join(sites) if sites else "unmapped:%s in %s:%s" % (cls, ev[4], ev[5]), to])
             elif kind == "P":
                 op, q, ln = ev[2], ev[3], ev[4]
                 ent = tab.get((q, ln))
@@ -868,15 +942,17 @@ class C07(Check):
         import random
         recoco, util = self.recoco, self.util
         rng = random.Random(case["seed"])
-        ctl = ft.Controller(ft.RandomChooser(rng), trace_funcs=self.trace_funcs, yield_lines=self.yield_lines,
-                            max_steps=MAX_STEPS, frame_files=(self.rfile,))
+        ctl = ft.Controller(ft.RandomChooser(rng), trace_funcs=self.trace_funcs, yield_lines=(),
+                            max_steps=MAX_STEPS, frame_files=(self.rfile,))     # pre-emption at the operations on shared objects
         def namer(th):
             n = getattr(th._target, "__name__", "")
             return "H" if n == "_threadProc" else "S" if n == "run" else None
         prim = ft.make_primitives(ctl, namer)
         saved = (recoco.threading, recoco.Thread, recoco.Queue, recoco.select, util.makePinger, recoco.defaultScheduler)
         sys_trace_saved = sys.gettrace(); sys.settrace(None)
+        saved_deque = recoco.deque
         recoco.threading, recoco.Thread, recoco.Queue, recoco.select = prim.threading, prim.Thread, prim.Queue, prim.select_module
+        recoco.deque = prim.Deque
         util.makePinger = lambda: prim.Pinger()
         import io, contextlib
         sink = io.StringIO()
@@ -892,8 +968,9 @@ class C07(Check):
                         runs.append(1)
                         if p2.count: p2.pongAll()
             t = T(); t.start(fast=True)
+            ready_q = [v for n, v in sorted(vars(sched).items()) if isinstance(v, prim.Deque)][0]
             def on_step(c):
-                r = list(sched._ready)
+                r = ready_q.peek()
                 if len(set(map(id, r))) != len(r): dup.append(c.steps)
             ctl.on_step = on_step
             parked = lambda: t in sched._selectHub._tasks
@@ -904,13 +981,13 @@ class C07(Check):
             ctl.spawn("F0", A); ctl.spawn("F1", B)
             redir.enter_context(contextlib.redirect_stdout(sink)); redir.enter_context(contextlib.redirect_stderr(sink))
             status = ctl.run(lambda c, en: c.chooser.pick(c, en) if en else ("stop", "quiescent"))
-            rel = [[n] + [str(x) for x in k] for n, k, _ in ctl.trace
-                   if k[0] == "L" and k[1] in ("ScheduleTask.run", "Scheduler.fast_schedule")]
+            rel = [[n] + [str(x) for x in k] for n, k, _ in ctl.trace if k[0] == "P" and str(k[1]).startswith("deque.")]
             return {"status": status, "dup_ready_at_steps": dup[:3], "task_slices": len(runs), "steps": ctl.steps,
                     "ready_sites": rel[-14:], "thread_errors": {x.name: x.error for x in ctl.threads if x.error}}
         finally:
             ctl.teardown(); redir.close()
             (recoco.threading, recoco.Thread, recoco.Queue, recoco.select, util.makePinger, recoco.defaultScheduler) = saved
+            recoco.deque = saved_deque
             sys.settrace(sys_trace_saved)
 
     # ------------------------------------------------------------------ implementation: pinger
@@ -977,7 +1054,7 @@ class C07(Check):
                 tid = tid_of(name)
                 if name in ("S", "H") and tid not in resp["enabled"] and self._polls(key): continue   # parked in its polling wait
                 m = self.map_trace([[tid] + list(key) + [0]])
-                if not m or m[0][1] != nxt.get(tid): return "divergence"
+                if not m or nxt.get(tid) not in m[0][1].split("|"): return "divergence"
                 if tid in resp["enabled"]: verdict = "harness"
             return verdict
         except Exception:
@@ -985,7 +1062,7 @@ class C07(Check):
 
     @staticmethod
     def _polls(key):
-        return key[0] == "P" and key[1] in ("Event.wait", "select")
+        return key[0] in ("P", "R") and key[1] in ("Event.wait", "select")
 
     def model_request(self, case):
         k = case["kind"]
@@ -1193,16 +1270,38 @@ class C07(Check):
                            "pg": "pipe pinger, modelled as byte counters and compared with the real PipePinger", "nm": "NOT modelled (listed below)"},
                 "not_modelled": unmodelled, "modelled_in_CoopLock": other["lk"], "modelled_as_byte_counter": other["pg"]}
 
+    def text_tie(self):
+        """EVIDENCE ONLY (not an obligation): do the statement texts of the listed functions still equal the reviewed table the
+        model was written against?  They stop doing so with every refactoring (helper extracted, local alias, early return); the
+        obligations are ops_agree (bag of shared operations per function, helpers inlined) and the object-level trace validation."""
+        try:
+            self.table()
+        except Exception as e:
+            return {"available": False, "why": str(e)[:200]}
+        model = {r["fn"]: [it["text"] for it in r["items"]] for r in self._table_raw}
+        differ = []
+        for rel, qual, sts, span in self.extract:
+            k = sites_tr.key(rel, qual)
+            if [REPAIRED.get(t, t) for t, ln in sts] != [REPAIRED.get(t, t) for t in model.get(k, [])]: differ.append(k)
+        if differ and not getattr(self, "_text_note", False):
+            self._text_note = True
+            common.log("C07 note: statement texts of %d listed function(s) differ from the reviewed table (%s) — a refactoring; "
+                       "the structural tie (ops_agree) and the trace validation decide" % (len(differ), ", ".join(differ)[:200]))
+        return {"available": True, "texts_agree": not differ, "functions_with_other_text": differ}
+
     def extra_evidence(self):
-        return {"sites": self.site_report(), "technique": self.technique, "level_text": self.level_text, "level_note": self.level_note,
+        return {"sites": self.site_report(), "text_tie": self.text_tie(), "technique": self.technique, "level_text": self.level_text, "level_note": self.level_note,
                 "bounded_exhaustive": getattr(self, "exhaustive_report", None),
                 "forced_scheduler": {"runs": self.stats["runs"], "steps": self.stats["steps"],
                                      "quiescent": self.stats["quiescent"], "deadlock": self.stats["deadlock"]}}
 
     technique = ("Lean 4 proof of invariants of an interleaving transition system (one atomic action per Python statement that touches "
                  "shared state; any number of foreign threads with arbitrary programs; all interleavings incl. polling time-outs at any "
-                 "moment) + site-order obligation (ast translator output = the model's statement table, by `decide`) + trace validation: "
-                 "real executions under a forced thread scheduler are replayed through the model's `step` + independent property oracle; "
+                 "moment) + structural obligation (ast translator: per hand-off function the bag of operations on shared state, helpers "
+                 "inlined = the model's table, by `decide`; the statement texts are evidence only) + trace validation: real executions under "
+                 "a forced thread scheduler — every operation on a shared OBJECT (ready queue, call queue, locks, event, pipes, hub queue, "
+                 "creation of helper tasks) is an event and a pre-emption point, identified by the object's role, not by function or line — "
+                 "are replayed through the model's `step` + independent property oracle; "
                  "cooperative Lock: sequential model, invariant over all operation sequences, op-by-op correspondence")
     level_text = ("PROVED (Lean, no sorry/own axioms), about Model/Handoff.lean, for every reachable state of every interleaving, any number of "
                   "foreign threads, threaded and inline hub: calllater_once/calllater_order (submitted = executed ++ in-flight ++ pending as "
@@ -1225,11 +1324,15 @@ class C07(Check):
                   "for any number of locks and tasks; and for one lock: for every operation sequence of any number of tasks that only release what they "
                   "were handed: lock_excl (believers = the holder, at most one; no waiter while free), lock_handoff (release wakes exactly the "
                   "popped waiter, who becomes holder; none if nobody waits); lock_excl_needs_discipline shows the hypothesis is necessary. "
-                  "TIED to the source on every run by (a) sites_agree: the ast translator's per-function statement lists equal the model's table "
-                  "(a statement that disappears, changes, moves, or a new attribute-touching statement breaks the build), sites_anchored: every "
-                  "model action is anchored at exactly one statement; (b) trace validation: each forced-schedule run of the real Scheduler/"
-                  "SelectHub/CallLaterTask/ScheduleTask/Synchronizer is replayed action by action through `step` and must be accepted and end "
-                  "in the same observables; the real Lock is compared operation by operation with the model.  TESTED only (oracle on the real "
+                  "TIED to the source on every run by (a) ops_agree: per hand-off function, the bag of operations on shared state (deque/set/"
+                  "lock/event/queue/pinger operations, attribute stores, helper-task creation, yield/raise/assert, calls of other listed "
+                  "functions; unlisted helpers inlined) regenerated by the ast translator equals the model's table (an operation that "
+                  "disappears or is added breaks the build; renames, log calls, extracted helpers, reordered branches do not), ops_cover: every "
+                  "action the model anchors in a function is in that function's bag, sites_anchored: every model action is anchored at exactly "
+                  "one statement of the reviewed statement table (whose TEXTS are evidence only: evidence.text_tie); (b) trace validation: in "
+                  "each forced-schedule run of the real Scheduler/SelectHub/CallLaterTask/ScheduleTask/Synchronizer every operation on a "
+                  "shared object is an event; the run is replayed event by event through `step`: each event must be the model's next action "
+                  "of that thread and enabled, and the run must end in the same observables (this ties ORDER and CONDITIONS); the real Lock is compared operation by operation with the model.  TESTED only (oracle on the real "
                   "runs): callbacks run exactly once on the scheduler thread in order, no duplicate in `ready`, no cooperative code inside a "
                   "foreign thread's section, no wake-up noticed only by time-out, quiescence reached without deadlock.")
     level_note = ("Partial with respect to the runtime, and stated as such: the theorems are about the hand-written site-level model; that each "
@@ -1252,9 +1355,10 @@ class C07(Check):
             "baseline + explicit pre-emptions); lock case = per-task programs over "
             "{acquire(l, blocking), release(l), yield} on 1-2 locks, 2-4 tasks; pinger case = ping/pongAll sequence; distinct = sha1 of the "
             "canonical case; non-trivial = the executed trace switches threads at least 4 times (threads) / some task had to wait (lock)")
-    trusted_base = ["Model/Handoff.lean, Model/CoopLock.lean, Model/HandoffSites.lean hand-written from recoco.py; tied by sites_agree + trace validation",
+    trusted_base = ["Model/Handoff.lean, Model/CoopLock.lean, Model/HandoffSites.lean hand-written from recoco.py; tied by ops_agree/ops_cover + trace validation",
                     "harness/translate/sites.py (decides which statements are listed) and harness/forcedthreads.py (forced scheduler, replaced primitives)",
-                    "mapping of line/primitive events to model actions in harness/c07.py (SITE_KIND + the model's table served by the driver)"]
+                    "mapping of operations on shared objects to model actions in harness/c07.py (SITE_CLASS: operation@role -> candidate actions; "
+                    "the driver takes the candidate that is the model's next action of that thread; cl_isNone has no event of its own)"]
     assumptions = ["GIL: each modelled site (deque append/popleft/__contains__, attribute read/write, threading.Lock/Event operation, one-byte pipe "
                    "write / read) is atomic with respect to other threads",
                    "select returns every readable descriptor; os.read on the empty blocking pinger pipe blocks; pongAll drains up to 1024 bytes",
